@@ -22,7 +22,7 @@ def run(module, cfg, env=None, workers=1, extra=(), timeout=3600,
     own = metadir is None
     if own:
         metadir = tempfile.mkdtemp(prefix='pv-tlc-')
-    cmd = ['java', '-XX:+UseParallelGC'] + list(jvm) + [
+    cmd = ['java', '-XX:+UseParallelGC', '-Djava.io.tmpdir=' + tempfile.gettempdir()] + list(jvm) + [
         '-cp', JARS, 'tlc2.TLC', '-workers', str(workers),
         '-metadir', metadir, '-noGenerateSpecTE',
         '-config', os.path.join(SPEC, cfg)]
